@@ -7,7 +7,7 @@
 From Coq Require Import NArith List String Bool.
 From Coq Require Import Strings.Byte.
 From PDL Require Import Base.Bits Base.Outcome Lang.Ast Lang.Sexp Analyzer.Schema Rust.Decode Rust.Inherit
-     Rust.Encode Proofs.InheritLaws Proofs.SpecializeLaws.
+     Sem.RefEncode Rust.Encode Proofs.InheritLaws Proofs.SpecializeLaws Proofs.ToParentLaws.
 Import ListNotations.
 
 Theorem C06_try_from_fails_iff_constraint_violated_partial :
@@ -110,3 +110,34 @@ Proof.
   split; [exact H1 | eexists; exact H2].
 Qed.
 Print Assumptions C06_unconstrained_only_child_refuted.
+
+(** CHILD -> PARENT (Proofs/ToParentLaws.v): Parent::try_from(child) has the constraint value
+    in every constrained data field -- own or inherited constraint -- and copies every other
+    data field unchanged; converting back therefore passes all the constraint checks of the
+    child.  (A declaration constraining the SAME field twice is the one way to break this:
+    [Dup.second_constraint_lost].) *)
+Theorem C06_parent_has_the_constraint_values :
+  forall fuel fl sch d p obj pobj id c,
+    to_parent fuel fl sch d p obj = Ok (VObj pobj) ->
+    is_pdata fl p id ->
+    find_constraint (iter_constraints fl d) id = Some c ->
+    exists x, constraint_N fl (data_fields fl p) c = Some x /\ assoc id pobj = Some (VNum x).
+Proof. exact to_parent_constrained_field. Qed.
+Print Assumptions C06_parent_has_the_constraint_values.
+
+Theorem C06_parent_copies_the_unconstrained_fields :
+  forall fuel fl sch d p obj pobj id,
+    to_parent fuel fl sch d p obj = Ok (VObj pobj) ->
+    is_pdata fl p id -> find_constraint (iter_constraints fl d) id = None ->
+    exists v, assoc id obj = Some v /\ assoc id pobj = Some v.
+Proof. exact to_parent_copies_unconstrained. Qed.
+Print Assumptions C06_parent_copies_the_unconstrained_fields.
+
+Theorem C06_converting_back_passes_the_constraint_checks :
+  forall fuel fl sch d p obj pobj,
+    to_parent fuel fl sch d p obj = Ok (VObj pobj) ->
+    (forall c, In c (decl_constraints d) -> first_on_field d c) ->
+    (forall c, In c (decl_constraints d) -> is_pdata fl p (c_id c)) ->
+    ~ Exists (violated fl (iter_fields fl p) (iter_constraints fl p) pobj) (decl_constraints d).
+Proof. exact to_parent_not_violated. Qed.
+Print Assumptions C06_converting_back_passes_the_constraint_checks.
